@@ -92,7 +92,7 @@ def _fields_close(p, q):
 
 def run_case(ctx, repo, case):
     MODE = case.get("mode", "gregorian")
-    repo.set_mode(MODE)
+    repo.set_mode(MODE, case)
     try:
         _run_case(ctx, repo, case, MODE)
     finally:
